@@ -88,6 +88,9 @@ pub struct ConnState {
     /// kill the connection once this many bytes (both directions) have been written
     pub kill_at_bytes: Option<(u64, KillKind)>,
     pub killed_at: Option<Duration>,
+    /// global event sequence number at which the server end was dropped
+    pub server_dropped_seq: Option<u64>,
+    seq: Arc<std::sync::atomic::AtomicU64>,
 }
 
 impl ConnState {
@@ -125,22 +128,35 @@ pub struct SimNet {
     pub cfg: NetCfg,
     conns: Arc<Mutex<Vec<Arc<Mutex<ConnState>>>>>,
     t0: tokio::time::Instant,
+    /// armed fault: the next connection created dies after this many bytes
+    next_conn_kill: Arc<Mutex<Option<(u64, KillKind)>>>,
+    seq: Arc<std::sync::atomic::AtomicU64>,
 }
 
 impl SimNet {
+    /// Global event sequence number (orders events that share a virtual instant).
+    pub fn tick(&self) -> u64 {
+        self.seq.fetch_add(1, std::sync::atomic::Ordering::SeqCst) + 1
+    }
+
     /// Must be created inside the runtime (reads the simulated clock).
     pub fn new(sim: &Sim, cfg: NetCfg) -> SimNet {
-        SimNet { sim: sim.clone(), cfg, conns: Arc::new(Mutex::new(vec![])), t0: tokio::time::Instant::now() }
+        SimNet { sim: sim.clone(), cfg, conns: Arc::new(Mutex::new(vec![])), t0: tokio::time::Instant::now(), next_conn_kill: Arc::new(Mutex::new(None)), seq: Arc::new(std::sync::atomic::AtomicU64::new(0)) }
     }
 
     pub fn now(&self) -> Duration {
         self.t0.elapsed()
     }
 
+    pub fn arm_kill_on_next_connection(&self, at_bytes: u64, kind: KillKind) {
+        *self.next_conn_kill.lock().unwrap() = Some((at_bytes, kind));
+    }
+
     pub fn pair(&self) -> (SimStream, SimStream) {
         let mut conns = self.conns.lock().unwrap();
         let id = conns.len();
-        let st = Arc::new(Mutex::new(ConnState { id, c2s: Dir::default(), s2c: Dir::default(), client_dropped_at: None, server_dropped_at: None, kill_at_bytes: None, killed_at: None }));
+        let armed = self.next_conn_kill.lock().unwrap().take();
+        let st = Arc::new(Mutex::new(ConnState { id, c2s: Dir::default(), s2c: Dir::default(), client_dropped_at: None, server_dropped_at: None, kill_at_bytes: armed, killed_at: None, server_dropped_seq: None, seq: self.seq.clone() }));
         conns.push(st.clone());
         let mk = |side| SimStream { sim: self.sim.clone(), conn: st.clone(), side, stall: None, just_stalled: false, cfg: self.cfg, t0: self.t0, id };
         (mk(Side::Client), mk(Side::Server))
@@ -165,6 +181,10 @@ impl SimNet {
     /// All server-side stream ends dropped?
     pub fn all_server_ends_dropped(&self) -> bool {
         self.conns.lock().unwrap().iter().all(|c| c.lock().unwrap().server_dropped_at.is_some())
+    }
+
+    pub fn server_drop_seqs(&self) -> Vec<Option<u64>> {
+        self.conns.lock().unwrap().iter().map(|c| c.lock().unwrap().server_dropped_seq).collect()
     }
 
     pub fn server_drop_times(&self) -> Vec<Option<Duration>> {
@@ -382,6 +402,7 @@ impl Drop for SimStream {
             }
             Side::Server => {
                 c.server_dropped_at = Some(now);
+                c.server_dropped_seq = Some(c.seq.fetch_add(1, std::sync::atomic::Ordering::SeqCst) + 1);
                 c.s2c.writer_closed = true;
                 c.c2s.reader_gone = true;
             }
@@ -472,19 +493,34 @@ impl tower_service::Service<http::Uri> for SimConnector {
     }
 }
 
-/// Build the tokio runtime of one simulated run: single thread, paused clock, seeded `select!`.
-pub fn runtime(seed: u64) -> tokio::runtime::Runtime {
+/// Build the tokio runtime of one simulated run: single thread, paused clock, seeded `select!`,
+/// and a deterministic task-poll budget (a task that is re-polled forever without ever touching a
+/// seam — a livelock in wall time — becomes a `task-poll-budget-exceeded` violation).
+pub fn runtime(sim: &Sim, seed: u64) -> tokio::runtime::Runtime {
     let mut b = [0u8; 32];
     for (i, chunk) in b.chunks_mut(8).enumerate() {
         chunk.copy_from_slice(&(seed.wrapping_add(i as u64).wrapping_mul(0x9E37_79B9_7F4A_7C15)).to_le_bytes());
     }
+    let polls = Arc::new(std::sync::atomic::AtomicU64::new(0));
+    let sim2 = sim.clone();
     tokio::runtime::Builder::new_current_thread()
         .enable_time()
         .start_paused(true)
         .rng_seed(tokio::runtime::RngSeed::from_bytes(&b))
+        .on_before_task_poll(move |_| {
+            let n = polls.fetch_add(1, std::sync::atomic::Ordering::Relaxed);
+            if n > TASK_POLL_BUDGET && !sim2.is_frozen() {
+                std::panic::panic_any(simcore::SimAbort {
+                    class: "task-poll-budget-exceeded".into(),
+                    detail: format!("more than {TASK_POLL_BUDGET} task polls in one simulated run (busy loop that never waits)"),
+                });
+            }
+        })
         .build()
         .expect("harness: tokio runtime")
 }
+
+pub const TASK_POLL_BUDGET: u64 = 3_000_000;
 
 fn hex(b: &[u8]) -> String {
     let mut s = String::new();
